@@ -849,6 +849,11 @@ func init() {
 			{"string-enum", M{"type": "string", "enum": []any{"red", "green"}, "default": "green"}, "red"},
 			{"untyped-string-enum", M{"enum": []any{"red", "green"}, "default": "green"}, "red"},
 			{"number-enum", M{"type": "number", "enum": []any{1.5, 2.5}, "default": 2.5}, 1.5},
+			{"integer-enum", M{"type": "integer", "enum": []any{1, 2, 3}, "default": 2}, 3},
+			{"integer-enum-last-member", M{"type": "integer", "enum": []any{10, 20, 30}, "default": 30}, 10},
+			{"untyped-integer-enum", M{"enum": []any{1, 2, 3}, "default": 2}, 3},
+			{"boolean-enum", M{"type": "boolean", "enum": []any{true}, "default": true}, true},
+			{"number-enum-integral-members", M{"type": "number", "enum": []any{1, 2.5}, "default": 1}, 2.5},
 			{"array-of-strings", M{"type": "array", "items": M{"type": "string"}, "default": []any{"a", "b"}}, []any{"c"}},
 			{"array-of-integers", M{"type": "array", "items": M{"type": "integer"}, "default": []any{1, 2, 3}}, []any{4}},
 			{"array-of-numbers", M{"type": "array", "items": M{"type": "number"}, "default": []any{1.5}}, []any{2.5, 3}},
